@@ -321,16 +321,23 @@ class EngineC08(HistEngine):
 
     @staticmethod
     def find_clobber(flat, scoped, source):
-        """Caller-visible variables that a callee wrote in the flat run: (kinds, names, writers)."""
-        words = set(re.findall(r"[A-Za-z_]\w*", source))
+        """Variables that are live in one scope and were written by a (nested) callee in the flat run:
+        (kinds, names, writers).  kind 'temp' = compiler generated name, 'named-local' = a name from some source text."""
         cand = sorted(n for n in flat["callee_writes"] if n in scoped["locals"] and n != "ret_val")
+        if not cand:
+            # collisions between two call scopes: the same raw name owned by more than one scope in the scoped run
+            owners: dict[str, set] = {}
+            for n in scoped["all_locals"]:
+                if ":" in n:
+                    sc, raw = n.split(":", 1)
+                    owners.setdefault(raw, set()).add(sc.split("#")[0])
+            cand = sorted(raw for raw, scs in owners.items() if len(scs) > 1 and raw != "ret_val")
         kinds = set()
         for k in cand:
-            gen = bool(re.search(r"\d+$", k)) and k not in words
-            kinds.add("temp" if gen else "named-local")
+            kinds.add("temp" if re.match(r"^h_tmp", k) else "named-local")
         if not cand:
             return ("unknown", "", "")
-        return ("+".join(sorted(kinds)), ",".join(cand), ",".join(flat["callee_writes"][k] for k in cand))
+        return ("+".join(sorted(kinds)), ",".join(cand), ",".join(flat["callee_writes"].get(k, "") for k in cand))
 
     def fixed_reference(self, text, a, b, st):
         rs, rt = a & 0xFFFFFFFF, b & 0xFFFFFFFF
@@ -351,6 +358,25 @@ class EngineC08(HistEngine):
             return "Rd_op", (32, (B["fbrev"]["native"](rs) + B["revbit16"]["native"](rt & 0xFFFF)) & m32)
         if text == FIXED_CALLERS[6]:
             return "Rd_op", (32, (B["conv_round"]["native"](rs, 2) + B["conv_round"]["native"](rt, 0)) & m32)
+        if text == FIXED_CALLERS[7]:
+            # by-reference register operand: fcirc_add reads Rx (old value), writes Rx and returns the new pointer
+            rx, m, cs = st.reg("Rx_op"), st.reg("Mu_op"), st.reg("cs0_op")
+            off = cref.wrap(st.imm("s"), ("s", 32))
+            k_const = (m >> 24) & 0xF
+            length = m & 0x1FFFF
+            new_ptr = (rx + off) & m32
+            if k_const == 0 and length >= 4:
+                start = cs & m32
+                end = (start + length) & m32
+            else:
+                mask_ = ((1 << (k_const + 2)) - 1) & m32
+                start = rx & (~mask_ & m32)
+                end = start | length
+            if new_ptr >= end:
+                new_ptr = (new_ptr - length) & m32
+            elif new_ptr < start:
+                new_ptr = (new_ptr + length) & m32
+            return "Rx_op", (32, new_ptr)
         if text == FIXED_CALLERS[9]:
             return "Rd_op", (32, (B["clz32"]["native"](rt) + B["clz32"]["native"](rs)) & m32)
         if text == FIXED_CALLERS[10]:
